@@ -10,6 +10,7 @@ import (
 	"errors"
 	"fmt"
 	"math/rand"
+	"os"
 	"strings"
 	"time"
 
@@ -30,6 +31,8 @@ type spec struct {
 	// Backlog > 0: before the generated part, that many single-commit level-0 files are
 	// produced and then compacted in one pass per level (large compaction inputs)
 	Backlog int `json:"backlog,omitempty"`
+	// Demo selects a fixed history (see runDemo)
+	Demo string `json:"demo,omitempty"`
 }
 
 func init() {
@@ -53,6 +56,9 @@ func cases(run *vf.Run) ([]json.RawMessage, error) {
 		n = 600
 	}
 	var out []json.RawMessage
+	// fixed history: WAL restarted by the application between two litestream syncs, then Snapshot
+	out = append(out, vf.Spec(spec{Seed: 624, Levels: 1, Demo: "snapshot-after-unobserved-wal-restart",
+		Cfg: hist.Config{PageSize: 4096, MinCheckpointPageN: 1000, TruncatePageN: 0, MaxSyncWALFrames: 0}}))
 	backlogs := []int{140, 300}
 	if run.Tier == "thorough" {
 		backlogs = []int{70, 140, 300, 520, 1100}
@@ -147,6 +153,75 @@ func runCase(run *vf.Run, raw json.RawMessage, dir string) *vf.Result {
 		}
 		return true
 	}
+	if s.Demo == "snapshot-after-unobserved-wal-restart" {
+		// writes + ack; application PASSIVE checkpoint (everything is backfilled, litestream's
+		// read mark is at the end of the WAL); application writes (the first one restarts the
+		// WAL: new salts, shorter than litestream's old cursor); Snapshot before the next sync.
+		for i := 0; i < 6; i++ {
+			if _, err := e.AppWriteKind("ins-multi"); err != nil {
+				return herr(err)
+			}
+		}
+		if !upload() {
+			res.HarnessErr = "demo: initial sync failed"
+			return res
+		}
+		// restart litestream while the WAL is fully checkpointed: its read
+		// transaction then starts on the database file alone and no longer keeps
+		// the application from restarting the WAL
+		cctx, cancel := context.WithTimeout(ctx, 30*time.Second)
+		cerr := e.LS.Close(cctx)
+		cancel()
+		e.AppCheckpoint("PASSIVE")
+		if cerr != nil {
+			e.Logf("close err=%v", cerr)
+		}
+		if err := e.StartLS(); err != nil {
+			return herr(fmt.Errorf("reopen: %w", err))
+		}
+		if err := e.LS.Sync(ctx); err != nil { // initialises the object: read lock taken on the fully checkpointed WAL
+			e.Logf("sync after reopen err=%v", err)
+		}
+		if _, err := e.AppWriteKind("ins-multi"); err != nil { // restarts the WAL (2nd generation)
+			return herr(err)
+		}
+		if !upload() {
+			res.HarnessErr = "demo: sync after reopen failed"
+			return res
+		}
+		e.AppCheckpoint("PASSIVE")
+		for i := 0; i < 2; i++ { // the first one restarts the WAL again (3rd generation), unseen by litestream
+			if _, err := e.AppWriteKind("ins-small"); err != nil {
+				return herr(err)
+			}
+		}
+		if b, rerr := os.ReadFile(e.DBPath + "-wal"); rerr == nil {
+			w := oracle.ParseWAL(b)
+			e.Logf("live WAL before snapshot: salts=%08x/%08x frames=%d size=%d", w.Salt1, w.Salt2, w.LastCommit, len(b))
+		}
+		info, err := e.LS.Snapshot(ctx)
+		e.Logf("Snapshot after unobserved WAL restart err=%v info=%+v", err, info)
+		if err == nil {
+			res.Count("snapshots", 1)
+		} else {
+			res.Count("snapshot_refused_after_unobserved_wal_restart", 1)
+		}
+		ops = append(ops, "demo-snapshot-after-unobserved-wal-restart")
+		if st.checkAll("demo") {
+			return res
+		}
+		// the refusal must be temporary: after a sync the snapshot is taken
+		if upload() {
+			if _, err := e.LS.Snapshot(ctx); err != nil {
+				res.Evals++
+				res.Violate("snapshot-refused-after-sync", "Snapshot still fails after a successful sync: %v", err)
+				return res
+			}
+			if st.checkAll("demo-after-sync") {
+				return res
+			}
+		}
+	}
 	if s.Backlog > 0 {
 		for i := 0; i < s.Backlog; i++ {
 			if _, err := e.AppWriteKind([]string{"ins-small", "update", "ins-small", "delete-half"}[rng.Intn(4)]); err != nil {
@@ -218,7 +293,20 @@ func runCase(run *vf.Run, raw json.RawMessage, dir string) *vf.Result {
 			res.Count("benign_restart_with_app_truncate", 1)
 		case r < 17:
 			op = "snapshot"
-			if !upload() {
+			if rng.Intn(3) == 0 && !s.Store {
+				// snapshot without a preceding WAL sync: only pending level-0 files are
+				// uploaded, so application activity since the last sync (including an
+				// application checkpoint that lets the next write restart the WAL) is
+				// not yet reflected in litestream's position
+				op = "snapshot-nosync"
+				if err := e.LS.Replica.Sync(ctx); err != nil {
+					break
+				}
+				if err := e.Arch.Scan(e.RepPath); err != nil {
+					res.Violate("l0-file-invalid", "%v", err)
+					return res
+				}
+			} else if !upload() {
 				break
 			}
 			var err error
